@@ -7,16 +7,16 @@ namespace ArvVerif.C05
 
 /-- generic invariant of the class loop -/
 theorem runClasses_inv (env : Env) (sorter : Class → List Slot → List Slot) (I : BState → Prop)
-    (hstep : ∀ c b, env.desired c ≠ 0 → IsSorted (less env c) b.slots (sorter c b.slots) → I b →
+    (hstep : ∀ c b, env.desired c ≠ 0 → (sorter c b.slots).Perm b.slots → I b →
       I (classIter env c (sorter c b.slots) b)) :
-    ∀ (cs : List Class) (b : BState), RunOK env sorter cs b → I b → I (runClasses env sorter cs b) := by
+    ∀ (cs : List Class) (b : BState), RunPerm env sorter cs b → I b → I (runClasses env sorter cs b) := by
   intro cs
   induction cs with
   | nil => intro b _ h; exact h
   | cons c cs ih =>
     intro b hok h
     unfold runClasses
-    unfold RunOK at hok
+    unfold RunPerm at hok
     by_cases hd : env.desired c = 0
     · simp only [hd, if_true] at hok ⊢; exact ih b hok h
     · simp only [hd, if_false] at hok ⊢
